@@ -163,6 +163,8 @@ def check(ctx):
     from ..rules import symmetry
     symmetry.check_side_symmetry(ctx)
     symmetry.check_transpose_complete(ctx)
+    patterns.check_state_written_only_when_initialising(ctx)
+    ctx.floor('A13i', 8, 'writes of pattern-encoder state')
     ctx.floor('A23t', 2, 'transposed copies (settings, existence pattern)')
     ctx.floor('A12', 20, 'registered encoder / imputer classes')
     ctx.floor('A13', 8, 'representative reads')
@@ -173,6 +175,8 @@ from ..selftest import V  # noqa: E402
 
 PP = 'optimization/assign_enc/patterns/patterns.py'
 VARIANTS = [
+    V('pattern-state-overwritten-by-later-pattern', 'optimization/assign_enc/patterns/patterns.py',
+      [("                if not _set_check('surjective', n_min_conn[0] == 1):\n                    return False\n                return True", "                if n_min_conn[0] == 1:\n                    self.surjective = True\n                return True")], key='A13i'),
     V('transpose-drops-parallel-limit', 'optimization/assign_enc/matrix.py',
       [("existence=existence_patterns,\n                                 max_conn_parallel=self.max_conn_parallel)", "existence=existence_patterns)")], key='A23t'),
     V('transpose-drops-max-override', 'optimization/assign_enc/matrix.py',
